@@ -11,7 +11,7 @@ NAMED = ["02134", "inf", "nan", "1e5", "True", "None", "C:\\temp", "\\n", "0x10"
          'say "hi"', "%s", "{0}", "{x}", "\\\\", "\\'", "\\u00e9", "é", "日本", " lead", "trail ", "a\\", "'''", '"""',
          "9007199254740993", "1.0", "-1", "+1", "1.", ".5", "0.10", "1e400", "-0", "00", "Infinity", "#", "//", "/* x */",
          "a,b", "(1,2)", "x == 1", "\t", "\x00", "𝒳", "a\rb", "a\u2028b", "a\x0cb", "a\x85b", "a\x0bb", "a\x1cb", "🎲", "\ud7ff", "a\u0301", "\u212b", "\u2126", "\u1100\u1161", "e\u0301\u0323", "ﬁ", "ｆｕｌｌ", "İ", "ß", "\u00a0", "\u200b", "\ufeff",
-         "http://a.example/x?y=1&z=2", "//a", "/*a*/", "a/*b", "x//y", "*/", "/*", "a */ b", "name", "id", "@KEY@", "{salt}", "$uid", "<id>", "%(uid)s", "O’Brien", "“q”", "‘a’", "D’Arcy", "it’s me", "«g»", "´x`", "＂fw＂", "＇fw＇"]  # fmt: skip
+         "http://a.example/x?y=1&z=2", "//a", "/*a*/", "a/*b", "x//y", "*/", "/*", "a */ b", "name", "id", "@KEY@", "{salt}", "$uid", "<id>", "%(uid)s", "fr&quot;x", "it&apos;s", "&#34;", "&#39;", "&amp;", "&lt;", "%22", "%27", "a%20b", "pricing-$$", "$$", "${x}", "$x", "%%", "{{", "}}", "{{x}}", "O’Brien", "“q”", "‘a’", "D’Arcy", "it’s me", "«g»", "´x`", "＂fw＂", "＇fw＇"]  # fmt: skip
 
 INTS = [0, 1, 7, 2**31, 2**53, 2**53 + 1, 2**63, 2**64 + 1, 10**30]
 DECS = ["0.0", "0.5", "1.5", "0.1", "3.14", "100.0", "0.000000001", "123456789.123456789", "1.0", "2.50", "007.5"]
